@@ -340,6 +340,11 @@ def run_unit_symbolic(unit, mode, deadline=None):
             holder['nonvacuous'] = holder.get('nonvacuous', 0) + 1
         P = Prover(ctx, unit)
         P.it = it
+        if not any(o.name == 'frame.shared_state' for o in ctx.obligations):
+            from .engine import Obligation
+            ctx.obligations.append(Obligation("%s:frame: no write to shared mutable state (module/class-level objects, default "
+                                              "arguments) outside the declared cache inventory" % unit.name, 'discharged',
+                                              solver='frame', kind='frame', path=list(ctx.trace)))
         unit.check(P, inp, old, out)
         holder['checked'] = holder.get('checked', 0) + P.checked
 
